@@ -68,7 +68,7 @@ Accepted(c) ==         \* grants the token endpoint does not answer with unsuppo
   \cup (IF c.caps.dev THEN {"device_code"} ELSE {})
 
 GoodConfig(c) == [issuerDoc |-> "same", issuerToken |-> "same", badEndpoints |-> <<>>, grantsAdv |-> SetToSeq(Advertised(c)), grantsAcc |-> SetToSeq(Accepted(c)),
-                  s256Adv |-> c.flags.s256, s256OK |-> TRUE, plainOK |-> TRUE, reqobjAdv |-> c.flags.reqobj, reqobjOK |-> c.flags.reqobj, reqobjInnerOK |-> c.flags.reqobj, issuerImplicit |-> "same", panic |-> FALSE]
+                  s256Adv |-> c.flags.s256, s256OK |-> TRUE, plainOK |-> TRUE, reqobjAdv |-> c.flags.reqobj, reqobjOK |-> c.flags.reqobj, reqobjInnerOK |-> c.flags.reqobj, issuerImplicit |-> "same", pkceEnforced |-> TRUE, panic |-> FALSE]
 
 IssuerAccepted(c) == /\ c.scheme = "https" \/ (c.scheme = "http" /\ c.insecure)
                      /\ c.host # "nohost"
@@ -88,6 +88,9 @@ RulesConfig(c, o) ==
     <<"C19.endpoints.served", o.badEndpoints = <<>>>>,
     <<"C19.grants.exact",     Range(o.grantsAdv) \cap TokenGrants = Range(o.grantsAcc)>>,
     <<"C19.pkce.honoured",    o.s256Adv => o.s256OK>>,
+    \* an advertised PKCE method is honoured for every kind of client: a private_key_jwt client that sent an S256 challenge does not
+    \* get tokens with another verifier (or none)
+    <<"C19.pkce.enforced",    o.pkceEnforced>>,
     <<"C19.reqobj.honoured",  o.reqobjAdv => o.reqobjOK>>,
     \* ... also when a parameter (redirect_uri) travels inside the signed object only
     <<"C19.reqobj.inner",     o.reqobjAdv => o.reqobjInnerOK>>,
